@@ -762,6 +762,30 @@ def check_g(prog, rep):
               where=sites[0][1] if sites else None, instance={"sites": len(sites)})
     n = sum(1 for b in prog.bodies.values() if b.crate.startswith("pasfmt") for a in [0] if any(f in str(s_) for _, _, s_ in b.stmts() for f in ("spaces_before",)))
     rep.floor(R, "bodies that mention the layout counters", n, 5)
+    # the wrapper's own pair of counters (LineWhitespace: indentations, continuations of a line, u16): one per broken context the line is
+    # nested in, so tens of thousands of unclosed brackets reach the maximum — they are combined with saturating operations too, and a
+    # wider sum is not narrowed with a truncating `as u16`  [defect #40]
+    LW = "pasfmt_core::rules::optimising_line_formatter::types::LineWhitespace"
+    sites2 = [x for x in unsaturated_counter_arith(prog, LW, ("indentations", "continuations"))
+              if not any("get_level(" in t for t in x[3])]      # (+ a line's nesting level: bounded by the parser's recursion depth, reviewed)
+    rep.check(not sites2, R, "line-whitespace-combined-without-overflow",
+              "a counter of LineWhitespace (u16, one per broken context around the line) is an operand of a plain `%s` in %s (%s): a line inside more than 65535 broken contexts overflows it — "
+              "a panic with overflow checks, a wrapped (small) indentation without them" % ((sites2[0][2], short(sites2[0][0].npath), " , ".join(t[:50] for t in sites2[0][3])) if sites2 else ("", "", "")),
+              where=sites2[0][1] if sites2 else None, instance={"sites": len(sites2)})
+    narrowed = []
+    for b in prog.bodies.values():
+        if not b.crate.startswith("pasfmt_core") or "optimising_line_formatter" not in b.npath or "::tests::" in b.npath:
+            continue
+        for bb, i, st in b.stmts():
+            if st["k"] == "assign" and st["rv"]["k"] == "cast" and st["rv"].get("cast") == "IntToInt" and st["rv"].get("ty") == "u16" and st["rv"]["op"]["k"] in ("copy", "move") \
+                    and not st["rv"]["op"]["place"]["p"] and b.locals[st["rv"]["op"]["place"]["l"]]["ty"] in ("u64", "usize", "u32"):
+                t = canon_operand(b, st["rv"]["op"]) if False else None
+                from util import canon as _canon
+                t = _canon(b, st["rv"]["op"])
+                if t.startswith("sum(") or t.startswith("count(") or t.startswith("fold("):
+                    narrowed.append("%s: %s as u16" % (short(b.npath), t[:50]))
+    rep.check(not narrowed, R, "sums-not-truncated-to-u16", "a sum over the contexts of a line is narrowed with a truncating `as u16` (%s): above 65535 it wraps to a small number" % narrowed[:2],
+              instance={"truncating_narrowings": len(narrowed)})
 
 
 
